@@ -583,6 +583,10 @@ func (c *Ctx) query(o *Obligation, withModel bool, dropQuant bool) string {
 	if rel["sx.fold"] && !dropQuant {
 		b.WriteString(foldAxiom)
 	}
+	if rel["sx.len"] && !dropQuant {
+		// a Go string is shorter than 2^40 bytes (as slices are assumed to be)
+		b.WriteString("(assert (forall ((s Str)) (! (bvult (sx.len s) #x0000010000000000) :pattern ((sx.len s)))))\n")
+	}
 	if rel["sx.emptyobj"] {
 		b.WriteString("(declare-const sx.emptyobj (Array (_ BitVec 64) Str))\n")
 		if !dropQuant {
